@@ -7,7 +7,7 @@ Line-protocol driver for C09 (one output line per input line).
 ```
 run <head>                     → ok <score> | ERR:<Exc>     score of the heuristic from the executable model
 so  <head>                     → ok <score> | ERR:<Exc>     the score_only code path (gapped / ungapped)
-chk <head> <score> <traces>    → ok n=<n> sound=<k>         `checkResult` on every returned trace
+chk <head> <score> <traces>    → ok n=<n> sound=<k> abutfree=<c>   `checkResult` on every returned trace; c = traces in class `affAbutFree`
 ```
 gap `L:<g>` or `A:<open>:<ext>`; code lists with `_` = empty; matrix row-major with `k2` columns; a trace is
 `i:j;i:j;…` (`_` = empty), traces separated by `/` (`-` = none).
@@ -114,7 +114,11 @@ def step (_ : Unit) (line : String) : Unit × String :=
           if r.startsWith "ERR" then r else
           let seed : Option (Nat × Nat) := h.seed.map fun s => (s.1.toNat, s.2.toNat)
           let sound := ts.filter fun t => checkResult h.a h.b h.M h.gap h.mode h.band seed h.dir t sc
-          s!"ok n={ts.length} sound={sound.length}"
+          -- which optimum class applies (affine semi-global results whose completion abuts a free terminal gap)
+          let abut := ts.filter fun t => match traceToAln t with
+            | some aln => validB .local h.a h.b aln && optClass h.a h.b h.gap h.mode aln == .affAbutFree
+            | none => false
+          s!"ok n={ts.length} sound={sound.length} abutfree={abut.length}"
         | _, _ => "bad-op"
       | _, _ => "bad-op"
     | _ => "bad-op"
